@@ -209,6 +209,7 @@ structure Rel (s : State κ) (o : OState κ) : Prop where
   known  : ∀ f, o.flights f ≠ none → f ∈ o.known
   credit : ∀ k, o.credit k = unann s.flights k + (if s.cache k = none then 1 else 0)
   canc   : o.cancelled = s.cancelled
+  strict : o.strict = s.strict
 
 theorem removedNow_eq {s : State κ} {o : OState κ} (hR : Rel s o) : removedNow o = isRemoved s := by
   funext f
@@ -222,6 +223,19 @@ theorem removedNow_eq {s : State κ} {o : OState κ} (hR : Rel s o) : removedNow
     by_cases h : fl.ans = none ∧ fl.removed = false
     · simp [h]
     · simp [h]
+
+theorem mem_of_getElem? {α : Type} {l : List α} {i : Nat} {a : α} (h : l[i]? = some a) : a ∈ l := by
+  obtain ⟨hlt, h2⟩ := List.getElem?_eq_some_iff.1 h
+  exact h2 ▸ List.getElem_mem hlt
+
+theorem hasKey_of_getElem? {es : List (κ × Nat)} {i : Nat} {e : κ × Nat} (h : es[i]? = some e) : hasKey es e.1 = true := by
+  unfold hasKey
+  exact List.any_eq_true.2 ⟨e, mem_of_getElem? h, by simp⟩
+
+theorem absFlight_ans {fls : List (Flight κ)} {f : Nat} {fl : Flight κ} (hf : fls[f]? = some fl) (ha : fl.ans ≠ none) :
+    absFlight fls f = some ⟨fl.key, fl.ans, fl.removed⟩ := by
+  unfold absFlight
+  simp [hf, ha]
 
 theorem getElem?_snoc_cases {α : Type} (l : List α) (x y : α) (i : Nat) (h : (l ++ [x])[i]? = some y) :
     (i < l.length ∧ l[i]? = some y) ∨ (i = l.length ∧ y = x) := by
@@ -277,7 +291,7 @@ theorem rel_updCaller_same {s : State κ} {o : OState κ} {c : Nat} {cl cl' : Ca
     (hc : s.callers[c]? = some cl) (he : cl'.entries = cl.entries) (hb : cl'.banned = cl.banned)
     (hp : ∀ p, PcRel cl.pc p → PcRel cl'.pc p) :
     Rel { s with callers := s.callers.set c cl' } o := by
-  refine ⟨by simp [hR.ncall], ?_, hR.flight, hR.known, hR.credit, hR.canc⟩
+  refine ⟨by simp [hR.ncall], ?_, hR.flight, hR.known, hR.credit, hR.canc, hR.strict⟩
   intro c' x hx
   rcases getElem?_set_cases _ _ _ _ _ hx with ⟨h1, h2⟩ | ⟨_, h2⟩
   · subst h1; subst h2
@@ -291,7 +305,7 @@ theorem rel_updCaller {s : State κ} {o : OState κ} {c : Nat} {cl cl' : Caller 
     (hp : PcRel cl'.pc ocl'.pc) :
     Rel { s with callers := s.callers.set c cl' } { o with callers := o.callers.set c ocl' } := by
   have hlt : c < s.callers.length := (List.getElem?_eq_some_iff.1 hc).1
-  refine ⟨by simp [hR.ncall], ?_, hR.flight, hR.known, hR.credit, hR.canc⟩
+  refine ⟨by simp [hR.ncall], ?_, hR.flight, hR.known, hR.credit, hR.canc, hR.strict⟩
   intro c' x hx
   rcases getElem?_set_cases _ _ _ _ _ hx with ⟨h1, h2⟩ | ⟨h1, h2⟩
   · subst h1; subst h2
@@ -312,7 +326,8 @@ theorem removeKey_callers (s : State κ) (k : κ) : (removeKey s k).1.callers = 
   · rfl
   · split <;> rfl
 
-theorem removeKey_refines {s : State κ} {o : OState κ} (k : κ) (hI : Inv s) (hR : Rel s o) :
+theorem removeKey_refines {s : State κ} {o : OState κ} (k : κ) (hI : Inv s) (hR : Rel s o)
+    (hj : s.strict = true → ∀ g, s.cache k = some g → justified o k g = true) :
     ∃ o', Obs.run o (removeKey s k).2 = some o' ∧ Inv (removeKey s k).1 ∧ Rel (removeKey s k).1 o' := by
   unfold removeKey
   cases hck : s.cache k with
@@ -320,6 +335,10 @@ theorem removeKey_refines {s : State κ} {o : OState κ} (k : κ) (hI : Inv s) (
   | some g =>
     obtain ⟨fl, hg, hkey, hrem⟩ := hI.cached k g hck
     have hlt : g < s.flights.length := (List.getElem?_eq_some_iff.1 hg).1
+    have hguard : ¬ (o.strict = true ∧ justified o k g = false) := by
+      intro hh
+      have := hj (by rw [← hR.strict]; exact hh.1) g hck
+      rw [this] at hh; cases hh.2
     simp only [hg]
     -- the specification's step
     have hof : o.flights g = if fl.ans = none then none else some ⟨k, fl.ans, false⟩ := by
@@ -392,8 +411,8 @@ theorem removeKey_refines {s : State κ} {o : OState κ} (k : κ) (hI : Inv s) (
     by_cases hans : fl.ans = none
     · -- removed before its PREPARE reached the server
       have ho : o.flights g = none := by rw [hof]; simp [hans]
-      refine ⟨_, by simp only [Obs.run, Obs.step, ho]; rfl, hInv, ?_⟩
-      refine ⟨hR.ncall, hR.call, ?_, ?_, hcredit, hR.canc⟩
+      refine ⟨_, by simp only [Obs.run, Obs.step]; rw [if_neg hguard]; simp only [ho]; rfl, hInv, ?_⟩
+      refine ⟨hR.ncall, hR.call, ?_, ?_, hcredit, hR.canc, hR.strict⟩
       · exact hflight _ (by rw [hans])
       · intro f hf
         simp only [] at hf ⊢
@@ -402,8 +421,8 @@ theorem removeKey_refines {s : State κ} {o : OState κ} (k : κ) (hI : Inv s) (
         · simp only [hfg, if_false] at hf
           exact List.mem_cons_of_mem _ (hR.known f hf)
     · have ho : o.flights g = some ⟨k, fl.ans, false⟩ := by rw [hof]; simp [hans]
-      refine ⟨_, by simp only [Obs.run, Obs.step, ho, and_self, if_true]; rfl, hInv, ?_⟩
-      refine ⟨hR.ncall, hR.call, ?_, ?_, hcredit, hR.canc⟩
+      refine ⟨_, by simp only [Obs.run, Obs.step]; rw [if_neg hguard]; simp only [ho, and_self, if_true]; rfl, hInv, ?_⟩
+      refine ⟨hR.ncall, hR.call, ?_, ?_, hcredit, hR.canc, hR.strict⟩
       · exact hflight _ rfl
       · intro f hf
         simp only [] at hf ⊢
@@ -422,7 +441,7 @@ theorem setFlight_same {s : State κ} {o : OState κ} (f : Nat) (fl fl' : Flight
   have hlt : f < s.flights.length := (List.getElem?_eq_some_iff.1 hf).1
   have hmono : FlMono s.flights (s.flights.set f fl') :=
     flmono_set _ f fl fl' hf hk (fun _ => ha) (fun h => by rw [hr]; exact h)
-  refine ⟨⟨?_, ?_, ?_, ?_, ?_, ?_, ?_⟩, ⟨hR.ncall, hR.call, ?_, hR.known, ?_, hR.canc⟩⟩
+  refine ⟨⟨?_, ?_, ?_, ?_, ?_, ?_, ?_⟩, ⟨hR.ncall, hR.call, ?_, hR.known, ?_, hR.canc, hR.strict⟩⟩
   · intro k g hc
     obtain ⟨x, h1, h2, h3⟩ := hI.cached k g hc
     by_cases hfg : f = g
@@ -479,9 +498,138 @@ theorem setDone_refines {s : State κ} {o : OState κ} (f : Nat) (fl : Flight κ
   simp only [hf]
   exact setFlight_same f fl { fl with done := true } hI hR hf rfl rfl rfl (fun _ => ha) (fun _ => hr) id
 
+/-! ### a cache that never purges for capacity: only finished flights are ever out of the cache -/
+
+def SInv (s : State κ) : Prop :=
+  s.strict = true → ∀ (f : Nat) (fl : Flight κ), s.flights[f]? = some fl → fl.removed = true → fl.done = true
+
+omit [DecidableEq κ] in
+theorem sinv_same {s s' : State κ} (hS : SInv s) (hf : s'.flights = s.flights) (hs : s'.strict = s.strict) : SInv s' := by
+  intro h f fl hx
+  rw [hf] at hx
+  exact hS (hs ▸ h) f fl hx
+
+omit [DecidableEq κ] in
+theorem sinv_set {s s' : State κ} (hS : SInv s) (f : Nat) (fl fl' : Flight κ) (hf : s.flights[f]? = some fl)
+    (hr : fl'.removed = true → fl'.done = true ∨ fl.removed = true) (hd : fl.done = true → fl'.done = true)
+    (hfl : s'.flights = s.flights.set f fl') (hs : s'.strict = s.strict) : SInv s' := by
+  intro h g x hx hxr
+  rw [hfl] at hx
+  rcases getElem?_set_cases _ _ _ _ _ hx with ⟨h1, h2⟩ | ⟨_, h2⟩
+  · subst h1; subst h2
+    rcases hr hxr with h3 | h3
+    · exact h3
+    · exact hd (hS (hs ▸ h) f fl hf h3)
+  · exact hS (hs ▸ h) g x h2 hxr
+
+omit [DecidableEq κ] in
+theorem sinv_append {s s' : State κ} (hS : SInv s) (x : Flight κ) (hx : x.removed = false)
+    (hfl : s'.flights = s.flights ++ [x]) (hs : s'.strict = s.strict) : SInv s' := by
+  intro h g y hy hyr
+  rw [hfl] at hy
+  rcases getElem?_snoc_cases _ _ _ _ hy with ⟨_, h2⟩ | ⟨_, h2⟩
+  · exact hS (hs ▸ h) g y h2 hyr
+  · subst h2; rw [hx] at hyr; cases hyr
+
+theorem removeKey_strict (s : State κ) (k : κ) : (removeKey s k).1.strict = s.strict := by
+  unfold removeKey
+  split
+  · rfl
+  · split <;> rfl
+
+/-- removing the entry of a finished flight -/
+theorem sinv_removeKey {s : State κ} (hS : SInv s) (k : κ)
+    (hd : ∀ g fl, s.cache k = some g → s.flights[g]? = some fl → fl.done = true) : SInv (removeKey s k).1 := by
+  cases hck : s.cache k with
+  | none => simp only [removeKey, hck]; exact hS
+  | some g =>
+    cases hg : s.flights[g]? with
+    | none => simp only [removeKey, hck, hg]; exact hS
+    | some fl =>
+      simp only [removeKey, hck, hg]
+      exact sinv_set hS g fl { fl with removed := true } hg (fun _ => Or.inl (hd g fl hck hg)) id rfl rfl
+
+omit [DecidableEq κ] in
+theorem setDone_strict (s : State κ) (f : Nat) : (setDone s f).strict = s.strict := by
+  unfold setDone
+  split <;> rfl
+
+omit [DecidableEq κ] in
+theorem sinv_setDone {s : State κ} (hS : SInv s) (f : Nat) : SInv (setDone s f) := by
+  unfold setDone
+  cases hf : s.flights[f]? with
+  | none => exact hS
+  | some fl =>
+    simp only []
+    exact sinv_set hS f fl { fl with done := true } hf (fun _ => Or.inl rfl) (fun _ => rfl) rfl rfl
+
+/-- the failing completion: the key is removed, then the flight is done — with a cache that never purges, the entry
+    removed is the failing flight's own -/
+theorem sinv_complete_fail {s : State κ} (hI : Inv s) (hS : SInv s) (f : Nat) (fl : Flight κ) (hf : s.flights[f]? = some fl)
+    (hd : fl.done = false) : SInv (setDone (removeKey s fl.key).1 f) := by
+  intro hst
+  have hst' : s.strict = true := by rw [setDone_strict, removeKey_strict] at hst; exact hst
+  have hnr : fl.removed = false := by
+    cases hr : fl.removed with
+    | false => rfl
+    | true => have := hS hst' f fl hf hr; rw [hd] at this; cases this
+  have hc := hI.uncached f fl hf hnr
+  have hlt : f < s.flights.length := (List.getElem?_eq_some_iff.1 hf).1
+  have h1 : (removeKey s fl.key).1.flights = s.flights.set f { fl with removed := true } := by
+    unfold removeKey; simp only [hc, hf]
+  have h2 : (removeKey s fl.key).1.flights[f]? = some { fl with removed := true } := by rw [h1]; simp [hlt]
+  have h3 : (setDone (removeKey s fl.key).1 f).flights = (s.flights.set f { fl with removed := true }).set f { fl with removed := true, done := true } := by
+    unfold setDone; simp only [h2]; rw [h1]
+  intro g x hx hxr
+  rw [h3] at hx
+  rcases getElem?_set_cases _ _ _ _ _ hx with ⟨_, h5⟩ | ⟨h4, h5⟩
+  · subst h5; rfl
+  · rw [List.getElem?_set_ne h4] at h5
+    exact hS hst' g x h5 hxr
+
+theorem sinv_evictIfMatch {s : State κ} (hS : SInv s) (k : κ) (id : Id) : SInv (evictIfMatch s k id).1 := by
+  cases hck : s.cache k with
+  | none => simp only [evictIfMatch, hck]; exact hS
+  | some g =>
+    cases hg : s.flights[g]? with
+    | none => simp only [evictIfMatch, hck, hg]; exact hS
+    | some fl =>
+      by_cases hd : fl.done = true
+      · cases ha : fl.ans with
+        | none => simp only [evictIfMatch, hck, hg, hd, ha, if_true]; exact hS
+        | some r =>
+          cases r with
+          | none => simp only [evictIfMatch, hck, hg, hd, ha, if_true]; exact hS
+          | some p =>
+            obtain ⟨id', n⟩ := p
+            by_cases hid : id = id'
+            · simp only [evictIfMatch, hck, hg, hd, ha, hid, if_true]
+              refine sinv_removeKey hS k ?_
+              intro g' fl' h1 h2
+              rw [hck] at h1; injection h1 with h1; subst h1
+              rw [hg] at h2; injection h2 with h2; subst h2
+              exact hd
+            · simp only [evictIfMatch, hck, hg, hd, ha, hid, if_true, if_false]; exact hS
+      · simp only [evictIfMatch, hck, hg, hd]; exact hS
+
+theorem evictIfMatch_strict (s : State κ) (k : κ) (id : Id) : (evictIfMatch s k id).1.strict = s.strict := by
+  unfold evictIfMatch
+  split
+  · rfl
+  · split
+    · rfl
+    · split
+      · split
+        · split
+          · exact removeKey_strict s k
+          · rfl
+        · rfl
+      · rfl
+
 /-! ### evictPreparedID -/
 
-theorem evictIfMatch_refines {s : State κ} {o : OState κ} (k : κ) (id : Id) (hI : Inv s) (hR : Rel s o) :
+theorem evictIfMatch_refines {s : State κ} {o : OState κ} (k : κ) (id : Id) (hI : Inv s) (hR : Rel s o)
+    (hw : o.callers.any (fun cl => decide (cl.pc = .awaiting (.unprep id)) && hasKey cl.entries k) = true) :
     ∃ o', Obs.run o (evictIfMatch s k id).2 = some o' ∧ Inv (evictIfMatch s k id).1 ∧ Rel (evictIfMatch s k id).1 o' ∧
       (evictIfMatch s k id).1.callers = s.callers := by
   unfold evictIfMatch
@@ -504,7 +652,14 @@ theorem evictIfMatch_refines {s : State κ} {o : OState κ} (k : κ) (id : Id) (
           simp only []
           by_cases hid : id = id'
           · simp only [hid, if_true]
-            obtain ⟨o', h1, h2, h3⟩ := removeKey_refines k hI hR
+            have hj : s.strict = true → ∀ g', s.cache k = some g' → justified o k g' = true := by
+              intro _ g' hg'
+              rw [hck] at hg'; injection hg' with hg'; subst hg'
+              unfold justified
+              rw [hR.flight g, absFlight_ans hg (by rw [ha]; simp), ha]
+              simp only []
+              rw [← hid]; exact hw
+            obtain ⟨o', h1, h2, h3⟩ := removeKey_refines k hI hR hj
             exact ⟨o', h1, h2, h3, removeKey_callers s k⟩
           · rw [if_neg hid]
             exact ⟨o, rfl, hI, hR, rfl⟩
@@ -565,7 +720,7 @@ theorem call_refines {s : State κ} {o : OState κ} (b : Bool) (es : List (κ ×
       obtain ⟨c0, cl0, h0, hp0⟩ := hI.unspawned f fl hf ha
       have hlt : c0 < s.callers.length := (List.getElem?_eq_some_iff.1 h0).1
       exact ⟨c0, cl0, by simp only []; rw [List.getElem?_append_left hlt]; exact h0, hp0⟩
-  · refine ⟨by simp [hR.ncall], ?_, hR.flight, hR.known, hR.credit, hR.canc⟩
+  · refine ⟨by simp [hR.ncall], ?_, hR.flight, hR.known, hR.credit, hR.canc, hR.strict⟩
     intro c cl hc
     rcases getElem?_snoc_cases _ _ _ _ hc with ⟨h1, h2⟩ | ⟨h1, h2⟩
     · obtain ⟨ocl, g1, g2⟩ := hR.call c cl h2
@@ -604,14 +759,6 @@ theorem unann_append (fls : List (Flight κ)) (x : Flight κ) (k : κ) :
   unfold unann
   rw [List.countP_append]
   by_cases h1 : x.key = k <;> cases h2 : x.ans <;> simp [List.countP_cons, h1, h2]
-
-theorem mem_of_getElem? {α : Type} {l : List α} {i : Nat} {a : α} (h : l[i]? = some a) : a ∈ l := by
-  obtain ⟨hlt, h2⟩ := List.getElem?_eq_some_iff.1 h
-  exact h2 ▸ List.getElem_mem hlt
-
-theorem hasKey_of_getElem? {es : List (κ × Nat)} {i : Nat} {e : κ × Nat} (h : es[i]? = some e) : hasKey es e.1 = true := by
-  unfold hasKey
-  exact List.any_eq_true.2 ⟨e, mem_of_getElem? h, by simp⟩
 
 theorem lookup_miss_refines {s : State κ} {o : OState κ} (c : Nat) (cl : Caller κ) (e : κ × Nat) (hI : Inv s) (hR : Rel s o)
     (hc : s.callers[c]? = some cl) (hpc : cl.pc = .start) (he : cl.entries[cl.got.length]? = some e)
@@ -694,7 +841,7 @@ theorem lookup_miss_refines {s : State κ} {o : OState κ} (c : Nat) (cl : Calle
         exact ⟨c0, cl0, by rw [List.getElem?_set_ne hne]; exact h0, hp0⟩
       · subst h1
         exact ⟨c, { cl with pc := .won s.flights.length }, by simp [hclt], rfl⟩
-  · refine ⟨by simp [hR.ncall], ?_, ?_, hR.known, ?_, hR.canc⟩
+  · refine ⟨by simp [hR.ncall], ?_, ?_, hR.known, ?_, hR.canc, hR.strict⟩
     · intro c' x hx
       simp only [] at hx
       rcases getElem?_set_cases _ _ _ _ _ hx with ⟨h1, h2⟩ | ⟨_, h2⟩
@@ -721,11 +868,6 @@ theorem lookup_miss_refines {s : State κ} {o : OState κ} (c : Nat) (cl : Calle
       · subst hk; simp [hck]
       · have : ¬ e.1 = k := fun h => hk h.symm
         simp [hk, this]
-
-theorem absFlight_ans {fls : List (Flight κ)} {f : Nat} {fl : Flight κ} (hf : fls[f]? = some fl) (ha : fl.ans ≠ none) :
-    absFlight fls f = some ⟨fl.key, fl.ans, fl.removed⟩ := by
-  unfold absFlight
-  simp [hf, ha]
 
 theorem srvPrepare_refines {s : State κ} {o : OState κ} (f : Nat) (fl : Flight κ) (r : PAns) (hI : Inv s) (hR : Rel s o)
     (hf : s.flights[f]? = some fl) (ha : fl.ans = none) :
@@ -819,7 +961,7 @@ theorem srvPrepare_refines {s : State κ} {o : OState κ} (f : Nat) (fl : Flight
   by_cases hrem : fl.removed = false
   · have ho : o.flights f = none := by rw [hR.flight f]; unfold absFlight; simp [hf, ha, hrem]
     refine ⟨_, by simp only [Obs.run, Obs.step]; rw [if_pos hcond]; simp only [ho]; rfl, hInv, ?_⟩
-    refine ⟨hR.ncall, hR.call, ?_, ?_, hcredit, hR.canc⟩
+    refine ⟨hR.ncall, hR.call, ?_, ?_, hcredit, hR.canc, hR.strict⟩
     · intro g; rw [← hflight g, hrem]
     · intro g hg
       simp only [] at hg ⊢
@@ -830,7 +972,7 @@ theorem srvPrepare_refines {s : State κ} {o : OState κ} (f : Nat) (fl : Flight
   · have hrem : fl.removed = true := by cases h : fl.removed <;> simp_all
     have ho : o.flights f = some ⟨fl.key, none, true⟩ := by rw [hR.flight f]; unfold absFlight; simp [hf, ha, hrem]
     refine ⟨_, by simp only [Obs.run, Obs.step]; rw [if_pos hcond]; simp only [ho, and_self, if_true]; rfl, hInv, ?_⟩
-    refine ⟨hR.ncall, hR.call, ?_, ?_, hcredit, hR.canc⟩
+    refine ⟨hR.ncall, hR.call, ?_, ?_, hcredit, hR.canc, hR.strict⟩
     · intro g; rw [← hflight g, hrem]
     · intro g hg
       simp only [] at hg ⊢
@@ -885,10 +1027,21 @@ theorem complete_ok_refines {s : State κ} {o : OState κ} (f : Nat) (fl : Fligh
   setDone_refines f fl hI hR hf (by rw [ha]; simp) (by rw [ha]; intro h; cases h)
 
 theorem complete_fail_refines {s : State κ} {o : OState κ} (f : Nat) (fl : Flight κ) (hI : Inv s) (hR : Rel s o)
+    (hS : SInv s) (hd : fl.done = false)
     (hf : s.flights[f]? = some fl) (ha : fl.ans = some none) :
     ∃ o', Obs.run o (removeKey s fl.key).2 = some o' ∧ Inv (setDone (removeKey s fl.key).1 f) ∧
       Rel (setDone (removeKey s fl.key).1 f) o' := by
-  obtain ⟨o', h1, h2, h3⟩ := removeKey_refines fl.key hI hR
+  have hj : s.strict = true → ∀ g, s.cache fl.key = some g → justified o fl.key g = true := by
+    intro hst g hg
+    have hnr : fl.removed = false := by
+      cases hr : fl.removed with
+      | false => rfl
+      | true => have := hS hst f fl hf hr; rw [hd] at this; cases this
+    have hc := hI.uncached f fl hf hnr
+    rw [hc] at hg; injection hg with hg; subst hg
+    unfold justified
+    rw [hR.flight f, absFlight_ans hf (by rw [ha]; simp), ha]
+  obtain ⟨o', h1, h2, h3⟩ := removeKey_refines fl.key hI hR hj
   obtain ⟨fl1, g1, g2, g3⟩ := removeKey_marks f fl hI hf
   obtain ⟨q1, q2⟩ := setDone_refines f fl1 h2 h3 g1 (by rw [g2, ha]; simp) (fun _ => g3)
   exact ⟨o', h1, q1, q2⟩
@@ -1061,6 +1214,38 @@ theorem finish_ret_refines {s : State κ} {o : OState κ} (c : Nat) (cl : Caller
     · intro f' fl' hw; rw [hpc] at hw; cases hw
   · exact rel_updCaller { ocl with pc := .returned } hR hc q2 q3 rfl
 
+theorem mem_zip_left {α β : Type} : ∀ (l1 : List α) (l2 : List β) (p : α × β), p ∈ l1.zip l2 → p.1 ∈ l1
+  | [], _, p, h => by simp at h
+  | _ :: _, [], p, h => by simp at h
+  | a :: l1, b :: l2, p, h => by
+    simp only [List.zip_cons_cons, List.mem_cons] at h
+    rcases h with h | h
+    · subst h; simp
+    · exact List.mem_cons_of_mem _ (mem_zip_left l1 l2 p h)
+
+/-- the key that an UNPREPARED answer makes the caller evict is the key of one of its own entries -/
+theorem unprepKey_hasKey (s : State κ) (cl : Caller κ) (id : Id) (k : κ) (h : unprepKey s cl id = some k) :
+    hasKey cl.entries k = true := by
+  unfold unprepKey at h
+  by_cases hb : cl.batch = true
+  · simp only [hb, if_true] at h
+    cases hfind : (cl.entries.zip cl.got).reverse.find? (fun e => idOf s e.2 = id) with
+    | none => simp [hfind] at h
+    | some p =>
+      simp only [hfind, Option.map_some, Option.some.injEq] at h
+      have hm : p ∈ (cl.entries.zip cl.got).reverse := List.mem_of_find?_eq_some hfind
+      have hm' : p ∈ cl.entries.zip cl.got := List.mem_reverse.1 hm
+      have := mem_zip_left _ _ p hm'
+      unfold hasKey
+      exact List.any_eq_true.2 ⟨p.1, this, by simp [h]⟩
+  · simp only [hb] at h
+    cases hes : cl.entries with
+    | nil => simp [hes] at h
+    | cons e es =>
+      simp [hes] at h
+      unfold hasKey
+      simp [h]
+
 theorem finish_unprep_refines {s : State κ} {o : OState κ} (c : Nat) (cl : Caller κ) (id : Id) (r : State κ × List (Ev κ))
     (hr : r = (match unprepKey s cl id with
       | some k => evictIfMatch s k id
@@ -1071,9 +1256,16 @@ theorem finish_unprep_refines {s : State κ} {o : OState κ} (c : Nat) (cl : Cal
       Rel { r.1 with callers := r.1.callers.set c { cl with got := [], pc := .start } } o' := by
   have hstep : ∃ o', Obs.run o r.2 = some o' ∧ Inv r.1 ∧ Rel r.1 o' ∧ r.1.callers = s.callers := by
     rw [hr]
-    cases unprepKey s cl id with
+    cases huk : unprepKey s cl id with
     | none => exact ⟨o, rfl, hI, hR, rfl⟩
-    | some k => exact evictIfMatch_refines k id hI hR
+    | some k =>
+      refine evictIfMatch_refines k id hI hR ?_
+      obtain ⟨ocl, q1, q2, _, q4⟩ := hR.call c cl hc
+      rw [hpc] at q4
+      have q4' : ocl.pc = .awaiting (.unprep id) := q4
+      refine List.any_eq_true.2 ⟨ocl, mem_of_getElem? q1, ?_⟩
+      rw [q2, unprepKey_hasKey s cl id k huk, q4']
+      simp
   obtain ⟨o', h1, h2, h3, h4⟩ := hstep
   have hc' : r.1.callers[c]? = some cl := by rw [h4]; exact hc
   have hok := h2.callers c cl hc'
@@ -1128,7 +1320,7 @@ theorem cancel_refines {s : State κ} {o : OState κ} (c : Nat) (hlt : c < s.cal
   · have : c < o.callers.length := by rw [hR.ncall]; exact hlt
     simp [Obs.run, Obs.step, this]
   · exact ⟨hI.cached, hI.uncached, hI.doneAns, hI.failRem, hI.callers, hI.waiter, hI.unspawned⟩
-  · exact ⟨hR.ncall, hR.call, hR.flight, hR.known, hR.credit, by simp only []; rw [hR.canc]⟩
+  · exact ⟨hR.ncall, hR.call, hR.flight, hR.known, hR.credit, by simp only []; rw [hR.canc], hR.strict⟩
 
 omit [DecidableEq κ] in
 theorem live_running {pc : OPC} (h : pc.live = true) : pc.running = true := by
@@ -1217,7 +1409,8 @@ theorem srvLate_refines {s : State κ} {o : OState κ} (c : Nat) (cl : Caller κ
 /-! ### every step, every schedule -/
 
 theorem step_refines {s s' : State κ} {o : OState κ} {a : Action κ} {evs : List (Ev κ)} (hI : Inv s) (hR : Rel s o)
-    (h : PConn.step s a = some (s', evs)) : ∃ o', Obs.run o evs = some o' ∧ Inv s' ∧ Rel s' o' := by
+    (hS : SInv s)
+    (h : PConn.step s a = some (s', evs)) : ∃ o', Obs.run o evs = some o' ∧ Inv s' ∧ Rel s' o' ∧ SInv s' := by
   cases a with
   | call b es =>
     simp only [PConn.step] at h
@@ -1225,7 +1418,8 @@ theorem step_refines {s s' : State κ} {o : OState κ} {a : Action κ} {evs : Li
     · simp [hes] at h
     · rw [if_neg hes] at h
       injection h with h; injection h with h1 h2; subst h1; subst h2
-      exact call_refines b es hes hI hR
+      obtain ⟨o', q1, q2, q3⟩ := call_refines b es hes hI hR
+      exact ⟨o', q1, q2, q3, sinv_same hS rfl rfl⟩
   | lookup c =>
     simp only [PConn.step] at h
     cases hc : s.callers[c]? with
@@ -1243,15 +1437,18 @@ theorem step_refines {s s' : State κ} {o : OState κ} {a : Action κ} {evs : Li
             simp only [hck] at h
             injection h with h; injection h with h1 h2; subst h1; subst h2
             obtain ⟨q1, q2⟩ := lookup_hit_refines c cl e f hI hR hc hpc he hck
-            exact ⟨o, rfl, q1, q2⟩
+            exact ⟨o, rfl, q1, q2, sinv_same hS rfl rfl⟩
           | none =>
             simp only [hck] at h
             injection h with h; injection h with h1 h2; subst h1; subst h2
             obtain ⟨q1, q2⟩ := lookup_miss_refines c cl e hI hR hc hpc he hck
-            exact ⟨o, rfl, q1, q2⟩
+            exact ⟨o, rfl, q1, q2, sinv_append hS _ rfl rfl rfl⟩
       · rw [if_neg hpc] at h; cases h
   | evict k =>
     simp only [PConn.step] at h
+    by_cases hstrict : s.strict = true
+    · rw [if_pos hstrict] at h; cases h
+    rw [if_neg hstrict] at h
     cases hck : s.cache k with
     | none => simp [hck] at h
     | some g =>
@@ -1260,7 +1457,8 @@ theorem step_refines {s s' : State κ} {o : OState κ} {a : Action κ} {evs : Li
       have h1 : s' = (removeKey s k).1 := by rw [h]
       have h2 : evs = (removeKey s k).2 := by rw [h]
       subst h1; subst h2
-      exact removeKey_refines k hI hR
+      obtain ⟨o', q1, q2, q3⟩ := removeKey_refines k hI hR (fun hst => absurd hst hstrict)
+      exact ⟨o', q1, q2, q3, fun hst => by rw [removeKey_strict] at hst; exact absurd hst hstrict⟩
   | srvPrepare f r =>
     simp only [PConn.step] at h
     cases hf : s.flights[f]? with
@@ -1270,7 +1468,8 @@ theorem step_refines {s s' : State κ} {o : OState κ} {a : Action κ} {evs : Li
       by_cases ha : fl.ans = none ∧ fl.spawned = true
       · rw [if_pos ha] at h
         injection h with h; injection h with h1 h2; subst h1; subst h2
-        exact srvPrepare_refines f fl r hI hR hf ha.1
+        obtain ⟨o', q1, q2, q3⟩ := srvPrepare_refines f fl r hI hR hf ha.1
+        exact ⟨o', q1, q2, q3, sinv_set hS f fl { fl with ans := some r } hf (fun h => Or.inr h) id rfl rfl⟩
       · rw [if_neg ha] at h; cases h
   | complete f =>
     simp only [PConn.step] at h
@@ -1290,11 +1489,13 @@ theorem step_refines {s s' : State κ} {o : OState κ} {a : Action κ} {evs : Li
             simp only [] at h
             injection h with h; injection h with h1 h2; subst h1; subst h2
             obtain ⟨q1, q2⟩ := complete_ok_refines f fl p hI hR hf ha
-            exact ⟨o, rfl, q1, q2⟩
+            exact ⟨o, rfl, q1, q2, sinv_setDone hS f⟩
           | none =>
             simp only [] at h
             injection h with h; injection h with h1 h2; subst h1; subst h2
-            exact complete_fail_refines f fl hI hR hf ha
+            have hd' : fl.done = false := by cases hx : fl.done <;> simp_all
+            obtain ⟨o', q1, q2, q3⟩ := complete_fail_refines f fl hI hR hS hd' hf ha
+            exact ⟨o', q1, q2, q3, sinv_complete_fail hI hS f fl hf hd'⟩
   | observe c a =>
     simp only [PConn.step] at h
     cases hc : s.callers[c]? with
@@ -1326,14 +1527,16 @@ theorem step_refines {s s' : State κ} {o : OState κ} {a : Action κ} {evs : Li
                 | none =>
                   simp only [ha] at h
                   injection h with h; injection h with h1 h2; subst h1; subst h2
-                  exact observe_fail_refines c f cl fl e hI hR hc hpc hf he hd ha
+                  obtain ⟨o', q1, q2, q3⟩ := observe_fail_refines c f cl fl e hI hR hc hpc hf he hd ha
+                  exact ⟨o', q1, q2, q3, sinv_same hS rfl rfl⟩
                 | some p =>
                   obtain ⟨id, nc⟩ := p
                   simp only [ha] at h
                   by_cases hne : e.2 ≠ nc
                   · rw [if_pos hne] at h
                     injection h with h; injection h with h1 h2; subst h1; subst h2
-                    exact observe_count_refines c f cl fl e id nc hI hR hc hpc hf he ha hne
+                    obtain ⟨o', q1, q2, q3⟩ := observe_count_refines c f cl fl e id nc hI hR hc hpc hf he ha hne
+                    exact ⟨o', q1, q2, q3, sinv_same hS rfl rfl⟩
                   · rw [if_neg hne] at h
                     have hnc : nc = e.2 := by
                       by_cases hq : e.2 = nc
@@ -1343,11 +1546,12 @@ theorem step_refines {s s' : State κ} {o : OState κ} {a : Action κ} {evs : Li
                     by_cases hlen : (cl.got ++ [f]).length = cl.entries.length
                     · rw [if_pos hlen] at h
                       injection h with h; injection h with h1 h2; subst h1; subst h2
-                      exact observe_exec_refines c f cl fl e id a hI hR hc hpc hf he ha hlen
+                      obtain ⟨o', q1, q2, q3⟩ := observe_exec_refines c f cl fl e id a hI hR hc hpc hf he ha hlen
+                      exact ⟨o', q1, q2, q3, sinv_same hS rfl rfl⟩
                     · rw [if_neg hlen] at h
                       injection h with h; injection h with h1 h2; subst h1; subst h2
                       obtain ⟨q1, q2⟩ := observe_more_refines c f cl fl e id hI hR hc hpc hf he ha hlen
-                      exact ⟨o, rfl, q1, q2⟩
+                      exact ⟨o, rfl, q1, q2, sinv_same hS rfl rfl⟩
             · rw [if_neg hd] at h; cases h
   | finish c =>
     simp only [PConn.step] at h
@@ -1367,15 +1571,23 @@ theorem step_refines {s s' : State κ} {o : OState κ} {a : Action κ} {evs : Li
         | ok =>
           simp only [hpc] at h
           injection h with h; injection h with h1 h2; subst h1; subst h2
-          exact finish_ret_refines c cl .ok .ok (Or.inl ⟨rfl, rfl⟩) hI hR hc hpc
+          obtain ⟨o', q1, q2, q3⟩ := finish_ret_refines c cl .ok .ok (Or.inl ⟨rfl, rfl⟩) hI hR hc hpc
+          exact ⟨o', q1, q2, q3, sinv_same hS rfl rfl⟩
         | err =>
           simp only [hpc] at h
           injection h with h; injection h with h1 h2; subst h1; subst h2
-          exact finish_ret_refines c cl .err .execErr (Or.inr ⟨rfl, rfl⟩) hI hR hc hpc
+          obtain ⟨o', q1, q2, q3⟩ := finish_ret_refines c cl .err .execErr (Or.inr ⟨rfl, rfl⟩) hI hR hc hpc
+          exact ⟨o', q1, q2, q3, sinv_same hS rfl rfl⟩
         | unprep id =>
           simp only [hpc] at h
           injection h with h; injection h with h1 h2; subst h1; subst h2
-          exact finish_unprep_refines c cl id _ rfl hI hR hc hpc
+          obtain ⟨o', q1, q2, q3⟩ := finish_unprep_refines c cl id _ rfl hI hR hc hpc
+          refine ⟨o', q1, q2, q3, sinv_same (s := (match unprepKey s cl id with
+            | some k => evictIfMatch s k id
+            | none => (s, [])).1) ?_ rfl rfl⟩
+          cases unprepKey s cl id with
+          | none => exact hS
+          | some k => exact sinv_evictIfMatch hS k id
   | spawn c =>
     simp only [PConn.step] at h
     cases hc : s.callers[c]? with
@@ -1397,13 +1609,14 @@ theorem step_refines {s s' : State κ} {o : OState κ} {a : Action κ} {evs : Li
           simp only [hf] at h
           injection h with h; injection h with h1 h2; subst h1; subst h2
           obtain ⟨q1, q2⟩ := spawn_refines c f cl fl hI hR hc hpc hf
-          exact ⟨o, rfl, q1, q2⟩
+          exact ⟨o, rfl, q1, q2, sinv_set hS f fl { fl with spawned := true } hf (fun h => Or.inr h) id rfl rfl⟩
   | cancel c =>
     simp only [PConn.step] at h
     by_cases hlt : c < s.callers.length
     · rw [if_pos hlt] at h
       injection h with h; injection h with h1 h2; subst h1; subst h2
-      exact cancel_refines c hlt hI hR
+      obtain ⟨o', q1, q2, q3⟩ := cancel_refines c hlt hI hR
+      exact ⟨o', q1, q2, q3, sinv_same hS rfl rfl⟩
     · rw [if_neg hlt] at h; cases h
   | abandon c =>
     simp only [PConn.step] at h
@@ -1422,11 +1635,13 @@ theorem step_refines {s s' : State κ} {o : OState κ} {a : Action κ} {evs : Li
         | waiting f =>
           simp only [hpc] at h
           injection h with h; injection h with h1 h2; subst h1; subst h2
-          exact abandon_refines c cl hI hR hc hcan (Or.inl ⟨f, hpc⟩)
+          obtain ⟨o', q1, q2, q3⟩ := abandon_refines c cl hI hR hc hcan (Or.inl ⟨f, hpc⟩)
+          exact ⟨o', q1, q2, q3, sinv_same hS rfl rfl⟩
         | answered a =>
           simp only [hpc] at h
           injection h with h; injection h with h1 h2; subst h1; subst h2
-          exact abandon_refines c cl hI hR hc hcan (Or.inr ⟨a, hpc⟩)
+          obtain ⟨o', q1, q2, q3⟩ := abandon_refines c cl hI hR hc hcan (Or.inr ⟨a, hpc⟩)
+          exact ⟨o', q1, q2, q3, sinv_same hS rfl rfl⟩
       · rw [if_neg hcan] at h; cases h
   | abandonLate c =>
     simp only [PConn.step] at h
@@ -1467,7 +1682,8 @@ theorem step_refines {s s' : State κ} {o : OState κ} {a : Action κ} {evs : Li
                       injection h with h; injection h with h1 h2; subst h1; subst h2
                       obtain ⟨hnc, hlen⟩ := hq
                       subst hnc
-                      exact abandonLate_refines c f cl fl e id hI hR hc hcan hpc hf he ha hlen
+                      obtain ⟨o', q1, q2, q3⟩ := abandonLate_refines c f cl fl e id hI hR hc hcan hpc hf he ha hlen
+                      exact ⟨o', q1, q2, q3, sinv_same hS rfl rfl⟩
                     · rw [if_neg hq] at h; cases h
               · rw [if_neg hd] at h; cases h
       · rw [if_neg hcan] at h; cases h
@@ -1480,7 +1696,8 @@ theorem step_refines {s s' : State κ} {o : OState κ} {a : Action κ} {evs : Li
       by_cases hpc : cl.pc = .lagging
       · rw [if_pos hpc] at h
         injection h with h; injection h with h1 h2; subst h1; subst h2
-        exact srvLate_refines c cl a hI hR hc hpc
+        obtain ⟨o', q1, q2, q3⟩ := srvLate_refines c cl a hI hR hc hpc
+        exact ⟨o', q1, q2, q3, sinv_same hS rfl rfl⟩
       · rw [if_neg hpc] at h; cases h
 
 theorem obs_run_append (o : OState κ) : ∀ (xs ys : List (Ev κ)) (o' o'' : OState κ),
@@ -1496,12 +1713,12 @@ theorem obs_run_append (o : OState κ) : ∀ (xs ys : List (Ev κ)) (o' o'' : OS
       exact obs_run_append o1 xs ys o' o'' h1 h2
 
 theorem run_refines : ∀ (as : List (Action κ)) (s s' : State κ) (o : OState κ) (evs : List (Ev κ)),
-    Inv s → Rel s o → PConn.run s as = some (s', evs) → ∃ o', Obs.run o evs = some o' ∧ Inv s' ∧ Rel s' o'
-  | [], s, s', o, evs, hI, hR, h => by
+    Inv s → Rel s o → SInv s → PConn.run s as = some (s', evs) → ∃ o', Obs.run o evs = some o' ∧ Inv s' ∧ Rel s' o' ∧ SInv s'
+  | [], s, s', o, evs, hI, hR, hS, h => by
     simp only [PConn.run] at h
     injection h with h; injection h with h1 h2; subst h1; subst h2
-    exact ⟨o, rfl, hI, hR⟩
-  | a :: as, s, s', o, evs, hI, hR, h => by
+    exact ⟨o, rfl, hI, hR, hS⟩
+  | a :: as, s, s', o, evs, hI, hR, hS, h => by
     simp only [PConn.run] at h
     cases hs : PConn.step s a with
     | none => simp [hs] at h
@@ -1514,23 +1731,29 @@ theorem run_refines : ∀ (as : List (Action κ)) (s s' : State κ) (o : OState 
         obtain ⟨s2, e2⟩ := q
         simp only [hr] at h
         injection h with h; injection h with h1 h2; subst h1; subst h2
-        obtain ⟨o1, g1, g2, g3⟩ := step_refines hI hR hs
-        obtain ⟨o2, k1, k2, k3⟩ := run_refines as s1 s2 o1 e2 g2 g3 hr
-        exact ⟨o2, obs_run_append o e1 e2 o1 o2 g1 k1, k2, k3⟩
+        obtain ⟨o1, g1, g2, g3, g4⟩ := step_refines hI hR hS hs
+        obtain ⟨o2, k1, k2, k3, k4⟩ := run_refines as s1 s2 o1 e2 g2 g3 g4 hr
+        exact ⟨o2, obs_run_append o e1 e2 o1 o2 g1 k1, k2, k3, k4⟩
 
-theorem inv_init : Inv (PConn.init : State κ) := by
-  refine ⟨?_, ?_, ?_, ?_, ?_, ?_, ?_⟩ <;> intro a b h <;> simp [PConn.init] at h
+theorem inv_init (b : Bool) : Inv (PConn.initB b : State κ) := by
+  refine ⟨?_, ?_, ?_, ?_, ?_, ?_, ?_⟩ <;> intro a c h <;> simp [PConn.initB] at h
 
-theorem rel_init : Rel (PConn.init : State κ) (Obs.init : OState κ) := by
-  refine ⟨rfl, ?_, ?_, ?_, ?_, rfl⟩
-  · intro c cl h; simp [PConn.init] at h
-  · intro f; simp [Obs.init, PConn.init, absFlight]
-  · intro f h; simp [Obs.init] at h
-  · intro k; simp [Obs.init, PConn.init, unann]
+theorem rel_init (b : Bool) : Rel (PConn.initB b : State κ) (Obs.initB b : OState κ) := by
+  refine ⟨rfl, ?_, ?_, ?_, ?_, rfl, rfl⟩
+  · intro c cl h; simp [PConn.initB] at h
+  · intro f; simp [Obs.initB, PConn.initB, absFlight]
+  · intro f h; simp [Obs.initB] at h
+  · intro k; simp [Obs.initB, PConn.initB, unann]
 
-/-- reachable states satisfy the invariant, and the specification accepts the trace -/
-theorem reachable {as : List (Action κ)} {s : State κ} {tr : List (Ev κ)} (h : PConn.run PConn.init as = some (s, tr)) :
-    ∃ o, Obs.run Obs.init tr = some o ∧ Inv s ∧ Rel s o :=
-  run_refines as _ _ _ _ inv_init rel_init h
+omit [DecidableEq κ] in
+theorem sinv_init (b : Bool) : SInv (PConn.initB b : State κ) := by
+  intro _ f fl h; simp [PConn.initB] at h
+
+/-- reachable states satisfy the invariant, and the specification accepts the trace — with a cache that may purge
+    for capacity (`b = false`) and with one that never does (`b = true`: every removal is justified) -/
+theorem reachable {b : Bool} {as : List (Action κ)} {s : State κ} {tr : List (Ev κ)} (h : PConn.run (PConn.initB b) as = some (s, tr)) :
+    ∃ o, Obs.run (Obs.initB b) tr = some o ∧ Inv s ∧ Rel s o := by
+  obtain ⟨o, h1, h2, h3, _⟩ := run_refines as _ _ _ _ (inv_init b) (rel_init b) (sinv_init b) h
+  exact ⟨o, h1, h2, h3⟩
 
 end C14Conn
